@@ -882,6 +882,60 @@ def nborscan_exec(run, fx, deep=False):
     run.held('RESOLVED', inst, fn.where(), '%d scenarios' % len(tasks))
 
 
+def freshpositions(run, fx):
+    """RESOLVED: the verdict is about the glyph's position "at that moment".  The collider works on Slot::origin(), which is only as fresh
+    as the last Segment::positionSlots: rule passes between two collision passes move, insert and delete glyphs.  So in
+    Pass::runGraphite every path to collisionShift runs positionSlots first -- unconditionally, or under a test of a segment flag bit
+    that nothing in the library ever SETS (on the pinned tree the SEG_INITCOLLISIONS test is such a dead guard: the statement that
+    would set the bit is commented out).  Reported: a collisionShift call that positionSlots does not dominate while some function
+    stores that bit into Segment::m_flags."""
+    fn = fx.one('graphite2::Pass::runGraphite')
+    inst = 'every collision pass positions the slots before it looks for collisions'
+    cs = calls_in(fn, 'graphite2::Pass::collisionShift')
+    ps = calls_in(fn, 'graphite2::Segment::positionSlots')
+    if not cs:
+        run.broken('RESOLVED', inst, 'no collisionShift call in Pass::runGraphite', fn.where())
+        return
+    dom_ = fn.dominators()
+    for c in cs:
+        bc = fn.block_of[c['i']]
+        if any((fn.block_of[p['i']] in dom_[bc] and fn.block_of[p['i']] != bc) or (fn.block_of[p['i']] == bc and fn.pos_of[p['i']] < fn.pos_of[c['i']]) for p in ps):
+            run.held('RESOLVED', inst, fn.loc(c), 'positionSlots dominates the collisionShift call')
+            continue
+        # conditional: which flag bits guard it, and does anything set them?
+        bits = set()
+        for cond, pol in dom.edge_guards(fn, fn.block_of[ps[0]['i']]) if ps else []:
+            node = fn.N(cond) if isinstance(cond, int) else cond
+            for x in fn.walk(node):
+                if x.get('k') == 'DeclRefExpr' and (x.get('d') or '').startswith('graphite2::Segment::SEG_'):
+                    bits.add(x['d'].split('::')[-1])
+        setters = []
+        for g in fx.all_fns():
+            for e in calls_in(g, 'graphite2::Segment::flags'):
+                if len(e.get('args') or []) != 1:
+                    continue
+                txt = g.render(g.N(e['args'][0]))
+                for b in bits:
+                    if b in txt and ('~' not in txt.split(b)[0][-12:]):
+                        setters.append((g, e, b))
+            for _, e in g.elements():
+                if e['k'] in ('BinaryOperator', 'CompoundAssignOperator') and e.get('op') in ('=', '|=') and g.render(g.N(e['c'][0])).endswith('m_flags') and g.q.startswith('graphite2::Segment::') and not g.q.endswith('::flags'):
+                    txt = g.render(g.N(e['c'][1]))
+                    for b in bits:
+                        if b in txt and ('~' not in txt.split(b)[0][-12:]):
+                            setters.append((g, e, b))
+        if not ps:
+            run.violated('RESOLVED', inst, fn.loc(c), 'Pass::runGraphite runs collisionShift without positioning the slots at all')
+        elif not bits:
+            run.violated('RESOLVED', inst, fn.loc(c), 'positionSlots does not dominate collisionShift in Pass::runGraphite and the condition it runs under is not a test of a segment flag')
+        elif setters:
+            g, e, b = setters[0]
+            run.violated('RESOLVED', inst, g.loc(e), '%s sets %s, and Pass::runGraphite skips positionSlots before collisionShift while that bit is set: slot origins are then cached from one collision pass to '
+                         'the next although the rule passes in between move glyphs -- the later pass fixes against stale positions and reports a glyph resolved where it really overlaps' % (g.q, b))
+        else:
+            run.held('RESOLVED', inst, fn.loc(c), 'positionSlots runs unless %s is set, and nothing sets it' % sorted(bits))
+
+
 class _Entered(Exception):
     pass
 
@@ -1462,7 +1516,7 @@ def run(run):
     N = 4 if run.tier == 'thorough' and not run.cfg_tag else 3
     for name, f in (('ZONESET', lambda: zoneset(run, fx, N)), ('ZONESET', lambda: initialise_exec(run, fx)), ('ZONEWRITERS', lambda: zonewriters(run, fx)),
                     ('OFFERED', lambda: offered(run, fx, N)), ('RESOLVED', lambda: resolved(run, fx)), ('RESOLVED', lambda: verdictshift(run, fx)),
-                    ('LIMITARGS', lambda: limitargs(run, fx)), ('LIMITARGS', lambda: kernclamp(run, fx)), ('LIMITARGS', lambda: initfresh(run, fx)), ('RESOLVED', lambda: rangestart(run, fx)), ('RESOLVED', lambda: resolve_exec(run, fx)), ('RESOLVED', lambda: reach_exec(run, fx)), ('RESOLVED', lambda: nborscan_exec(run, fx, run.tier == 'thorough' and not run.cfg_tag)), ('RESOLVED', lambda: axisbase(run, fx, optional=True)), ('RESOLVED', lambda: axisbase(run, fx, 'graphite2::ShiftCollider::mergeSlot', 'torg', 'mergeSlot places the limit window of axis i at that axis\' own form of the offset')), ('LIMITARGS', lambda: initslot_exec(run, fx)), ('LIMITARGS', lambda: limitdiag(run, fx)), ('LIMITARGS', lambda: targetown(run, fx))):
+                    ('LIMITARGS', lambda: limitargs(run, fx)), ('LIMITARGS', lambda: kernclamp(run, fx)), ('LIMITARGS', lambda: initfresh(run, fx)), ('RESOLVED', lambda: rangestart(run, fx)), ('RESOLVED', lambda: resolve_exec(run, fx)), ('RESOLVED', lambda: reach_exec(run, fx)), ('RESOLVED', lambda: freshpositions(run, fx)), ('RESOLVED', lambda: nborscan_exec(run, fx, run.tier == 'thorough' and not run.cfg_tag)), ('RESOLVED', lambda: axisbase(run, fx, optional=True)), ('RESOLVED', lambda: axisbase(run, fx, 'graphite2::ShiftCollider::mergeSlot', 'torg', 'mergeSlot places the limit window of axis i at that axis\' own form of the offset')), ('LIMITARGS', lambda: initslot_exec(run, fx)), ('LIMITARGS', lambda: limitdiag(run, fx)), ('LIMITARGS', lambda: targetown(run, fx))):
         try:
             f()
         except AnalysisBroken as ex:
